@@ -94,9 +94,9 @@ class Ctx:
         self.violations.append(v)
         self.obligations.append({"rule": r, "where": where, "fact": message, "ok": False, "trivial": False})
 
-    def check(self, cond: bool, function: str, construct: str, where: str, ok_fact: str, bad_message: str, path=None) -> bool:
+    def check(self, cond: bool, function: str, construct: str, where: str, ok_fact: str, bad_message: str, path=None, trivial: bool = False) -> bool:
         if cond:
-            self.ok(where, ok_fact, function)
+            self.ok(where, ok_fact, function, trivial=trivial)
         else:
             self.violation(function, construct, where, bad_message, path)
         return cond
